@@ -1,6 +1,7 @@
 package main
 
 import (
+	"os"
 	"fmt"
 	"go/types"
 	"strings"
@@ -270,6 +271,12 @@ func (c *Ctx) checkClientOffersProvenance() {
 	}{{hexd, "hex.DecodeString"}, {ffb, "FingerprintFromBytes"}, {gbi, "GetBridgeInfo"}} {
 		cut := errNilEdges(co, g.call, 1)
 		path := reachableWithout(co, X, cut)
+		if os.Getenv("SFDEBUG") != "" {
+			fmt.Println("DEBUG", g.what, "cut", len(cut), "call", g.call, "block", g.call.Block().Index)
+			for _, e := range cut {
+				fmt.Println("   edge", e.From.Index, e.Idx)
+			}
+		}
 		c.check(len(cut) > 0 && path == nil, rule6, "matchSnowflake only behind err == nil of "+g.what, p.instrPos(g.call), "", "matching is reachable although "+g.what+" failed", p.pathString(path)...)
 	}
 	// chain: GetBridgeInfo(FingerprintFromBytes(hex.DecodeString(req.Fingerprint)))
